@@ -5520,4 +5520,264 @@ theorem manik_roundtrip_py' (first : Text) (rows : List SvmRow) (hok : ∀ r ∈
   simp only [List.drop_succ_cons, List.drop_zero]
   exact libsvm_roundtrip_py' rows hok hnum
 
+/-! ## L. (phase 6) histories of DiskSink / DiskSource operations -/
+
+deriving instance DecidableEq for DiskOut
+
+theorem storeGet_append {α : Type} (s : Store α) (p : Nat) (xs : List α) (q : Nat) :
+    storeGet (storeAppend s p xs) q = if p = q then some ((storeGet s p).getD [] ++ xs) else storeGet s q := by
+  induction s with
+  | nil =>
+    by_cases h : p = q <;> simp [storeAppend, storeGet, h]
+  | cons e r ih =>
+    obtain ⟨a, x⟩ := e
+    by_cases ha : a = p
+    · subst ha
+      by_cases h : a = q <;> simp [storeAppend, storeGet, h]
+    · by_cases h : p = q
+      · subst h
+        simp [storeAppend, storeGet, ha, ih]
+      · by_cases haq : a = q
+        · subst haq
+          simp [storeAppend, storeGet, ha, h]
+        · simp [storeAppend, storeGet, ha, h, haq, ih]
+
+theorem diskRead_frame (lines : List Text) (bytes : List Nat) (h2 : encode (frame lines) = .ok bytes)
+    (hn : ∀ l ∈ lines, noNl l = true) : diskRead bytes = .ok lines := by
+  unfold diskRead
+  rw [decodeAll_encode _ _ h2]
+  simp only
+  have hcr : ∀ c ∈ frame lines, c ≠ CR := by
+    intro c hc
+    simp only [frame, List.mem_flatten, List.mem_map] at hc
+    obtain ⟨l', ⟨l, hl, rfl⟩, hc⟩ := hc
+    simp only [List.mem_append, List.mem_singleton] at hc
+    rcases hc with hc | hc
+    · exact (noNl_ne l (hn l hl)).1 c hc
+    · subst hc; decide
+  unfold universalNl
+  rw [universalNlGo_noCr _ hcr, readlines_frame lines (fun l hl => (noNl_ne l (hn l hl)).2)]
+  rw [List.map_map]
+  congr 1
+  have : ∀ l ∈ lines, (rstripNl ∘ fun x => x ++ [LF]) l = id l := by
+    intro l hl; simp [rstripNl_line l (hn l hl)]
+  rw [List.map_congr_left this]; simp
+
+theorem diskWriteParts_frame (batch : Option Nat) (lines : List Text)
+    (hs : ∀ l ∈ lines, ∀ c ∈ l, isScalar c = true) :
+    ∃ parts, diskWriteParts batch lines = .ok parts ∧ encode (frame lines) = .ok parts.flatten := by
+  obtain ⟨parts, bytes, h1, h2, h3⟩ := diskWriteParts_go_ok (batches batch lines) (by
+    intro b hb l hl
+    have : l ∈ (batches batch lines).flatten := List.mem_flatten.mpr ⟨b, hb, hl⟩
+    rw [batches_flatten] at this
+    exact hs l this)
+  rw [batches_flatten] at h2
+  exact ⟨parts, h1, by rw [h3]; exact h2⟩
+
+/-- the file of a path holds the encoding of the framed lines written to it so far -/
+def DiskRel : Option (List (List Nat)) → Option (List Text) → Prop
+  | none, none => True
+  | some parts, some ls => encode (frame ls) = .ok parts.flatten ∧ ∀ l ∈ ls, noNl l = true
+  | _, _ => False
+
+def DiskInv (fs : Store (List Nat)) (st : Store Text) : Prop := ∀ p, DiskRel (storeGet fs p) (storeGet st p)
+
+theorem diskOpOk_write (ls : List Text) (h : (ls.all (fun l => noNl l && l.all isScalar)) = true) :
+    (∀ l ∈ ls, ∀ c ∈ l, isScalar c = true) ∧ (∀ l ∈ ls, noNl l = true) := by
+  have := List.all_eq_true.mp h
+  constructor
+  · intro l hl c hc
+    have h1 := this l hl
+    simp only [Bool.and_eq_true] at h1
+    exact List.all_eq_true.mp h1.2 c hc
+  · intro l hl
+    have h1 := this l hl
+    simp only [Bool.and_eq_true] at h1
+    exact h1.1
+
+theorem diskInv_write (fs : Store (List Nat)) (st : Store Text) (hinv : DiskInv fs st) (p : Nat) (ls : List Text)
+    (parts : List (List Nat)) (henc : encode (frame ls) = .ok parts.flatten) (hn : ∀ l ∈ ls, noNl l = true) :
+    DiskInv (storeAppend fs p parts) (storeAppend st p ls) := by
+  intro q
+  rw [storeGet_append, storeGet_append]
+  by_cases h : p = q
+  · simp only [h, if_true]
+    have hq := hinv q
+    cases hf : storeGet fs q with
+    | none =>
+      cases hs : storeGet st q with
+      | none => simpa [DiskRel] using ⟨henc, hn⟩
+      | some l0 => rw [hf, hs] at hq; exact hq.elim
+    | some p0 =>
+      cases hs : storeGet st q with
+      | none => rw [hf, hs] at hq; exact hq.elim
+      | some l0 =>
+        rw [hf, hs] at hq
+        obtain ⟨h1, h2⟩ := hq
+        refine ⟨?_, ?_⟩
+        · simp only [Option.getD_some, frame_append, List.flatten_append]
+          exact encode_append _ _ _ _ h1 henc
+        · intro l hl
+          simp only [Option.getD_some, List.mem_append] at hl
+          rcases hl with hl | hl
+          · exact h2 l hl
+          · exact hn l hl
+  · simp only [h, if_false]
+    exact hinv q
+
+theorem disk_history' (rd : List (List Nat) → List Nat) (hrd : ∀ parts, rd parts = parts.flatten)
+    (ops : List DiskOp) (hok : ∀ op ∈ ops, diskOpOk op = true)
+    (fs : Store (List Nat)) (st : Store Text) (hinv : DiskInv fs st) :
+    diskRun rd fs ops = .ok (diskSpecRun st ops) := by
+  induction ops generalizing fs st with
+  | nil => rfl
+  | cons op ops ih =>
+    have hrest : ∀ o ∈ ops, diskOpOk o = true := fun o ho => hok o (by simp [ho])
+    cases op with
+    | write p b ls =>
+      have hw : diskOpOk (DiskOp.write p b ls) = true := hok _ (by simp)
+      obtain ⟨hs, hn⟩ := diskOpOk_write ls hw
+      obtain ⟨parts, h1, h2⟩ := diskWriteParts_frame b ls hs
+      simp only [diskRun, diskStep, h1, diskSpecRun]
+      rw [ih hrest _ _ (diskInv_write fs st hinv p ls parts h2 hn)]
+    | read p =>
+      have hp := hinv p
+      simp only [diskRun, diskStep, diskSpecRun]
+      cases hf : storeGet fs p with
+      | none =>
+        cases hs : storeGet st p with
+        | none => simp only [ih hrest fs st hinv]
+        | some l0 => rw [hf, hs] at hp; exact hp.elim
+      | some p0 =>
+        cases hs : storeGet st p with
+        | none => rw [hf, hs] at hp; exact hp.elim
+        | some l0 =>
+          rw [hf, hs] at hp
+          simp only [ih hrest fs st hinv, hrd, diskRead_frame l0 _ hp.1 hp.2]
+    | readk p k =>
+      have hp := hinv p
+      simp only [diskRun, diskStep, diskSpecRun]
+      cases hf : storeGet fs p with
+      | none =>
+        cases hs : storeGet st p with
+        | none => simp only [ih hrest fs st hinv]
+        | some l0 => rw [hf, hs] at hp; exact hp.elim
+      | some p0 =>
+        cases hs : storeGet st p with
+        | none => rw [hf, hs] at hp; exact hp.elim
+        | some l0 =>
+          rw [hf, hs] at hp
+          simp only [ih hrest fs st hinv, hrd, diskRead_frame l0 _ hp.1 hp.2, Except.map]
+
+theorem diskInv_empty : DiskInv [] [] := fun _ => trivial
+
+/-! ## M. (phase 6) the labelled CSV pipeline -/
+
+theorem labelDense_ok (j : Nat) (row : List Text) (h : j < row.length) :
+    labelDense (j : Int) row = some (labelSplit j row) := by
+  unfold labelDense labelSplit
+  have : ¬ ((j : Int) < 0) := by omega
+  simp [this, List.getD, h]
+
+theorem labelDenseAll_ok (j n : Nat) (hj : j < n) (rows : List (List Text)) (hw : ∀ r ∈ rows, r.length = n) :
+    labelDenseAll (j : Int) rows = some (rows.map (labelSplit j)) := by
+  induction rows with
+  | nil => rfl
+  | cons r rs ih =>
+    have h1 := labelDense_ok j r (by rw [hw r (by simp)]; exact hj)
+    have h2 := ih (fun r' hr' => hw r' (by simp [hr']))
+    simp [labelDenseAll, h1, h2]
+
+theorem headerIndexGo_lt (name : Text) (hs : List Text) (i : Nat) (acc : Option Nat) (j : Nat)
+    (hacc : ∀ a, acc = some a → a < i) (h : headerIndexGo name i acc hs = some j) : j < i + hs.length := by
+  induction hs generalizing i acc with
+  | nil =>
+    simp only [headerIndexGo] at h
+    have := hacc j h
+    simpa using this
+  | cons x xs ih =>
+    simp only [headerIndexGo] at h
+    have := ih (i + 1) _ (by
+      intro a ha
+      by_cases hx : x = name
+      · simp [hx] at ha; omega
+      · simp [hx] at ha; have := hacc a ha; omega) h
+    simp only [List.length_cons]; omega
+
+theorem headerIndex_lt (hdr : List Text) (name : Text) (j : Nat) (h : headerIndex hdr name = some j) : j < hdr.length := by
+  have := headerIndexGo_lt name hdr 0 none j (by intro a ha; cases ha) h
+  simpa using this
+
+/-- resolution: on a table of width `n` the code's index is the spec's column -/
+theorem labelIndex_col (hdr : Option (List Text)) (n : Nat) (ref : LabelRef) (j : Nat)
+    (hh : ∀ h, hdr = some h → h.length = n) (hc : labelCol hdr n ref = some j) :
+    labelIndex hdr n ref = some (j : Int) ∧ j < n := by
+  cases ref with
+  | idx i =>
+    simp only [labelCol] at hc
+    simp only [labelIndex]
+    by_cases h1 : 0 ≤ i ∧ i < n
+    · simp only [h1, and_self, if_true, Option.some.injEq] at hc
+      have : ¬ i < 0 := by omega
+      simp only [this, if_false]
+      constructor
+      · congr 1; omega
+      · omega
+    · simp only [h1, if_false] at hc
+      by_cases h2 : i < 0 ∧ -(n : Int) ≤ i
+      · simp only [h2, and_self, if_true, Option.some.injEq] at hc
+        simp only [h2.1, if_true]
+        constructor
+        · congr 1; omega
+        · omega
+      · simp [h2] at hc
+  | name t =>
+    cases hdr with
+    | none => simp [labelCol] at hc
+    | some h =>
+      simp only [labelCol] at hc
+      have hlt := headerIndex_lt h t j hc
+      rw [hh h rfl] at hlt
+      have : ¬ ((j : Int) < 0) := by omega
+      simp [labelIndex, hc, this, hlt]
+
+theorem labelRows_ok (hdr : Option (List Text)) (n : Nat) (ref : LabelRef) (j : Nat)
+    (hh : ∀ h, hdr = some h → h.length = n) (hc : labelCol hdr n ref = some j)
+    (rows : List (List Text)) (hw : ∀ r ∈ rows, r.length = n) :
+    labelRows hdr ref rows = some (rows.map (labelSplit j)) := by
+  cases rows with
+  | nil => rfl
+  | cons first rest =>
+    obtain ⟨h1, h2⟩ := labelIndex_col hdr n ref j hh hc
+    simp only [labelRows, hw first (by simp), h1]
+    exact labelDenseAll_ok j n h2 _ hw
+
+theorem csv_label_roundtrip' (delim : Nat) (hd1 : delim ≠ DQ) (hd2 : isNl delim = false)
+    (hdr : Option (List (Bool × Text))) (rows : List (List (Bool × Text)))
+    (hok : ∀ r ∈ hdr.toList ++ rows, csvRowOk r = true) (n : Nat) (hw : ∀ r ∈ hdr.toList ++ rows, r.length = n)
+    (ref : LabelRef) (j : Nat) (hc : labelCol (hdr.map (·.map (·.2))) n ref = some j) :
+    csvLabelRead (excel delim) hdr.isSome ref ((hdr.toList ++ rows).map (csvWriteRow delim)) =
+      .ok (some ((rows.map (·.map (·.2))).map (labelSplit j))) := by
+  unfold csvLabelRead
+  rw [csv_roundtrip' delim hdr.isSome (hdr.toList ++ rows) hok hd1 hd2]
+  have hwv : ∀ r ∈ rows.map (·.map (·.2)), r.length = n := by
+    intro r hr
+    obtain ⟨r0, h0, rfl⟩ := List.mem_map.mp hr
+    simpa using hw r0 (by simp [h0])
+  cases hdr with
+  | none =>
+    simp only [Option.toList_none, List.nil_append, Option.isSome_none, Option.map_none] at *
+    cases hrows : rows.map (·.map (·.2)) with
+    | nil => simp [labelRows]
+    | cons first rest =>
+      simp only [Bool.false_eq_true, if_false]
+      rw [hrows] at hwv
+      rw [labelRows_ok none n ref j (by intro h hh; cases hh) hc _ hwv]
+  | some h =>
+    simp only [Option.toList_some, List.cons_append, List.nil_append, List.map_cons, Option.isSome_some, if_true, Option.map_some] at *
+    rw [labelRows_ok (some (h.map (·.2))) n ref j (by
+      intro h' hh
+      cases hh
+      simpa using hw h (by simp)) hc _ hwv]
+
 end Coba.C12
